@@ -261,6 +261,9 @@ func txnDriver(args []string) error {
 	if args[0] == "walk" {
 		return txnWalk(args[1:])
 	}
+	if args[0] == "conc" {
+		return txnConc(args[1:])
+	}
 	if args[0] != "sched" {
 		return fmt.Errorf("txn sched ...")
 	}
